@@ -314,10 +314,7 @@ func parserFaults(c *simkit.Choices, x *simkit.Ctx) *simkit.Violation {
 
 func foldFaults(c *simkit.Choices, x *simkit.Ctx) *simkit.Violation {
 	st := x.Stats
-	te := &model.Catalogue[c.N(len(model.Catalogue))]
-	if !te.Supported {
-		te = &model.Catalogue[1]
-	}
+	te := model.PickType(c, false, false, false)
 	val := te.Gen(c)
 	useIter := c.Bool()
 	sc := &Scenario{Side: "visitor", Target: "gotype.Fold", Type: te.Name, Value: model.Render(val)}
